@@ -59,6 +59,11 @@ pub enum ELayer {
     /// an absent entry: nothing written, empty sample group, whatever was wrapped so far
     OptionNone,
     RootedOptionNone,
+    /// a container / wrapper impl of InflectableEntry reached with a NON-identity name style
+    /// (a `rename_all` parent): wrap 0 Option, 1 Box, 2 Arc, 3 Cow, 4 &T, 5 WithDimensions (no
+    /// dimensions added); style 0 Pascal, 1 Snake, 2 Kebab, 3 a flatten prefix. The inner adapter
+    /// marks every name and sample-group key with the style it was reached with.
+    RootedStyled { wrap: u8, style: u8 },
 }
 
 /// `InflectableEntry` adapter over any `Entry` (for every name style)
@@ -72,6 +77,85 @@ impl<NS: metrique_core::NameStyle, E: Entry> InflectableEntry<NS> for Infl<E> {
         self.0.sample_group()
     }
 }
+
+/// the four spellings handed to `NameStyle::Inflect`: the style in force picks one of them (and
+/// puts its prefix chain in front), which is how the adapter below learns, at run time, with
+/// which name style it was reached (the style types themselves are private to metrique-core)
+pub struct TagId;
+impl metrique_core::concat::ConstStr for TagId {
+    const VAL: &'static str = "";
+}
+pub struct TagP;
+impl metrique_core::concat::ConstStr for TagP {
+    const VAL: &'static str = "P~";
+}
+pub struct TagS;
+impl metrique_core::concat::ConstStr for TagS {
+    const VAL: &'static str = "s~";
+}
+pub struct TagK;
+impl metrique_core::concat::ConstStr for TagK {
+    const VAL: &'static str = "k~";
+}
+pub struct TagPrefix;
+impl metrique_core::concat::ConstStr for TagPrefix {
+    const VAL: &'static str = "pre_";
+}
+fn style_tag(style: u8) -> &'static str {
+    ["P~", "s~", "k~", "pre_"][style as usize % 4]
+}
+
+/// writer that marks names
+struct TagNames<'w, W> {
+    inner: &'w mut W,
+    tag: Cow<'static, str>,
+}
+impl<'a, 'w, W: EntryWriter<'a>> EntryWriter<'a> for TagNames<'w, W> {
+    fn timestamp(&mut self, t: std::time::SystemTime) {
+        self.inner.timestamp(t)
+    }
+    fn value(&mut self, name: impl Into<Cow<'a, str>>, value: &(impl metrique_writer_core::Value + ?Sized)) {
+        let n: Cow<'a, str> = name.into();
+        self.inner.value(format!("{}{}", self.tag, n), value)
+    }
+    fn config(&mut self, config: &'a dyn metrique_writer_core::EntryConfig) {
+        self.inner.config(config)
+    }
+}
+
+/// `InflectableEntry` adapter that shows the name style it is reached with: every name and every
+/// sample-group key gets the style's tag (and prefix chain) in front
+#[derive(Clone)]
+pub struct InflNs<E>(pub E);
+impl<NS: metrique_core::NameStyle, E: Entry> InflectableEntry<NS> for InflNs<E> {
+    fn write<'a>(&'a self, w: &mut impl EntryWriter<'a>) {
+        let tag = metrique_core::concat::const_str_value::<NS::Inflect<TagId, TagP, TagS, TagK>>();
+        self.0.write(&mut TagNames { inner: w, tag })
+    }
+    fn sample_group(&self) -> impl Iterator<Item = (Cow<'static, str>, Cow<'static, str>)> {
+        let tag = metrique_core::concat::const_str_value::<NS::Inflect<TagId, TagP, TagS, TagK>>();
+        self.0.sample_group().map(move |(k, v)| (Cow::Owned(format!("{tag}{k}")), v))
+    }
+}
+
+/// what a `rename_all` / `prefix` parent does: reach the child with another name style
+macro_rules! to_style {
+    ($name:ident, $proj:ty) => {
+        struct $name<T>(T);
+        impl<NS: metrique_core::NameStyle, T: InflectableEntry<$proj>> InflectableEntry<NS> for $name<T> {
+            fn write<'a>(&'a self, w: &mut impl EntryWriter<'a>) {
+                <T as InflectableEntry<$proj>>::write(&self.0, w)
+            }
+            fn sample_group(&self) -> impl Iterator<Item = (Cow<'static, str>, Cow<'static, str>)> {
+                <T as InflectableEntry<$proj>>::sample_group(&self.0)
+            }
+        }
+    };
+}
+to_style!(ToPascal, NS::PascalCase);
+to_style!(ToSnake, NS::SnakeCase);
+to_style!(ToKebab, NS::KebabCase);
+to_style!(ToPrefixed, NS::AppendPrefix<TagPrefix>);
 
 /// BoxEntry is Send but not Sync; the harness only ever uses one thread per case
 struct SyncBox(BoxEntry);
@@ -205,6 +289,32 @@ fn apply(layer: &ELayer, e: BoxEntry) -> BoxEntry {
             // SAFETY: the box is never moved out of or dropped before the holder
             let r: &'static Infl<SyncBox> = unsafe { &*(&*b as *const Infl<SyncBox>) };
             BoxEntry::new(Holder { rooted: RootEntry::new(r), _e: b })
+        }
+        ELayer::RootedStyled { wrap, style } => {
+            macro_rules! styled {
+                ($to:ident) => {{
+                    match wrap % 6 {
+                        0 => BoxEntry::new(RootEntry::new($to(Some(InflNs(e))))),
+                        1 => BoxEntry::new(RootEntry::new($to(Box::new(InflNs(e))))),
+                        2 => BoxEntry::new(RootEntry::new($to(Arc::new(InflNs(SyncBox(e)))))),
+                        3 => {
+                            let c: Cow<'static, InflNs<CowEntry>> = Cow::Owned(InflNs(CowEntry(Arc::new(SyncBox(e)))));
+                            BoxEntry::new(RootEntry::new($to(c)))
+                        }
+                        4 => {
+                            let b: &'static InflNs<SyncBox> = Box::leak(Box::new(InflNs(SyncBox(e))));
+                            BoxEntry::new(RootEntry::new($to(b)))
+                        }
+                        _ => BoxEntry::new(RootEntry::new($to(WithDimensions::<_, 1>::new_with_dimensions(InflNs(e), Vec::<(Cow<'static, str>, Cow<'static, str>)>::new())))),
+                    }
+                }};
+            }
+            match style % 4 {
+                0 => styled!(ToPascal),
+                1 => styled!(ToSnake),
+                2 => styled!(ToKebab),
+                _ => styled!(ToPrefixed),
+            }
         }
         ELayer::OptionNone => {
             drop(e);
@@ -344,6 +454,18 @@ fn model(layer: &ELayer, log: Vec<Rec>, sg: Sg) -> (Vec<Rec>, Sg) {
         | ELayer::RootedCow
         | ELayer::RootedRef => (log, sg),
         ELayer::OptionNone | ELayer::RootedOptionNone => (vec![], vec![]),
+        ELayer::RootedStyled { style, .. } => {
+            let tag = style_tag(*style);
+            let log: Vec<Rec> = log
+                .into_iter()
+                .map(|r| match r {
+                    Rec::Value { name, val } => Rec::Value { name: format!("{tag}{name}"), val },
+                    other => other,
+                })
+                .collect();
+            let sg = sg.into_iter().map(|(k, v)| (format!("{tag}{k}"), v)).collect();
+            (log, sg)
+        }
         ELayer::MergeGlobalsFirst(g) | ELayer::MergeByRefGlobalsFirst(g) => {
             let p = g.prepare();
             let mut l = record(&p).recs;
@@ -434,6 +556,7 @@ fn layer_class(l: &ELayer) -> &'static str {
         ELayer::RootedRef => "layer-inflectable-ref",
         ELayer::OptionNone => "layer-option-none",
         ELayer::RootedOptionNone => "layer-inflectable-option-none",
+        ELayer::RootedStyled { .. } => "layer-inflectable-container-under-a-name-style",
     }
 }
 
@@ -446,7 +569,7 @@ fn sg_sig(layers: &[ELayer]) -> String {
             ELayer::WithGlobalDims(..) => return "sample-group-lost:WithGlobalDimensions".into(),
             ELayer::RootedForce(_) => return "sample-group-lost:ForceFlag-inflectable".into(),
             ELayer::RootedWithDims(_) => return "sample-group-lost:WithDimensions-inflectable".into(),
-            ELayer::RootedOption | ELayer::RootedBox | ELayer::RootedArc | ELayer::RootedCow | ELayer::RootedRef => {
+            ELayer::RootedOption | ELayer::RootedBox | ELayer::RootedArc | ELayer::RootedCow | ELayer::RootedRef | ELayer::RootedStyled { .. } => {
                 return "sample-group-lost:inflectable-container".into();
             }
             _ => {}
@@ -579,6 +702,8 @@ fn arb_layer() -> impl Strategy<Value = ELayer> {
         Just(ELayer::RootedArc),
         Just(ELayer::RootedCow),
         Just(ELayer::RootedRef),
+        (0u8..6, 0u8..4).prop_map(|(wrap, style)| ELayer::RootedStyled { wrap, style }),
+        (0u8..5, 0u8..4).prop_map(|(wrap, style)| ELayer::RootedStyled { wrap, style }),
         prop_oneof![1 => Just(ELayer::OptionNone), 1 => Just(ELayer::RootedOptionNone), 6 => Just(ELayer::OptionSome)],
     ]
 }
@@ -1094,6 +1219,7 @@ pub fn run(ctx: &mut Ctx) {
         )
         .threads(threads)
         .mandatory(&[
+            "layer-inflectable-container-under-a-name-style",
             "layer-boxed", "layer-option", "layer-box", "layer-arc", "layer-ref", "layer-cow", "layer-merge",
             "layer-merge-other-last", "layer-merge-by-ref", "layer-with-dimensions", "layer-with-global-dimensions",
             "layer-force-flag", "layer-root-entry", "layer-inflectable-force-flag",
